@@ -104,6 +104,146 @@ theorem is_null_def (tys : List Ty) (row : Row) (e : Expr) (v : Value) (h : eval
   simp [h, bne]
 
 
+/-! ## LIKE (by characters; `%` any sequence, `_` any one character, `\` escapes) -/
+
+theorem anySuffix_iff {α} (f : List α → Bool) (s : List α) :
+    anySuffix f s = true ↔ ∃ s₁ s₂, s = s₁ ++ s₂ ∧ f s₂ = true := by
+  induction s with
+  | nil =>
+    simp only [anySuffix]
+    constructor
+    · intro h; exact ⟨[], [], rfl, h⟩
+    · rintro ⟨s₁, s₂, h, hf⟩
+      have : s₂ = [] := by
+        have := congrArg List.length h
+        simp at this
+        exact List.eq_nil_of_length_eq_zero (by omega)
+      rw [this] at hf; exact hf
+  | cons c s ih =>
+    simp only [anySuffix, Bool.or_eq_true, ih]
+    constructor
+    · rintro (h | ⟨s₁, s₂, hs, hf⟩)
+      · exact ⟨[], c :: s, rfl, h⟩
+      · exact ⟨c :: s₁, s₂, by simp [hs], hf⟩
+    · rintro ⟨s₁, s₂, hs, hf⟩
+      cases s₁ with
+      | nil => left; simp only [List.nil_append] at hs; rw [hs]; exact hf
+      | cons x s₁ =>
+        right
+        simp only [List.cons_append, List.cons.injEq] at hs
+        exact ⟨s₁, s₂, hs.2, hf⟩
+
+/-- LIKE is its definition: `%` stands for any sequence of characters, `_` for any one character, every other item
+    (an ordinary character, or any character after the escape character) for itself -/
+theorem like_def (p : List LikeItem) : ∀ (s : List UChar), likeMatch p s = true ↔ Likes p s := by
+  induction p with
+  | nil =>
+    intro s
+    simp only [likeMatch, List.isEmpty_iff]
+    constructor
+    · rintro rfl; exact .nil
+    · intro h; cases h; rfl
+  | cons it p ih =>
+    intro s
+    cases it with
+    | anySeq =>
+      simp only [likeMatch, anySuffix_iff]
+      constructor
+      · rintro ⟨s₁, s₂, rfl, h⟩; exact .anySeq p s₁ s₂ ((ih s₂).mp h)
+      · intro h
+        cases h with
+        | anySeq _ s₁ s₂ h => exact ⟨s₁, s₂, rfl, (ih s₂).mpr h⟩
+    | anyOne =>
+      cases s with
+      | nil => simp only [likeMatch]; constructor <;> intro h <;> cases h
+      | cons c s =>
+        simp only [likeMatch]
+        constructor
+        · intro h; exact .anyOne p c s ((ih s).mp h)
+        · intro h; cases h with | anyOne _ _ _ h => exact (ih s).mpr h
+    | lit c =>
+      cases s with
+      | nil => simp only [likeMatch]; constructor <;> intro h <;> cases h
+      | cons x s =>
+        simp only [likeMatch, Bool.and_eq_true, beq_iff_eq]
+        constructor
+        · rintro ⟨rfl, h⟩; exact .lit p x s ((ih s).mp h)
+        · intro h; cases h with | lit _ _ _ h => exact ⟨rfl, (ih s).mpr h⟩
+
+/-- a pattern without wildcards matches exactly the text it spells; `%` alone matches everything -/
+theorem like_literal_and_percent (cs s : List UChar) :
+    (likeMatch (cs.map .lit) s = true ↔ s = cs) ∧ likeMatch [.anySeq] s = true := by
+  constructor
+  · induction cs generalizing s with
+    | nil => simp [likeMatch]
+    | cons c cs ih =>
+      cases s with
+      | nil => simp [likeMatch]
+      | cons x s => simp [likeMatch, ih s]
+  · rw [like_def]
+    have := Likes.anySeq [] s [] .nil
+    simpa using this
+
+/-- the characters of a text partition its bytes; an ASCII text has one character per byte -/
+theorem utf8Chars_laws (s : List Nat) :
+    (utf8Chars s).flatten = s ∧ ((∀ b ∈ s, b < 128) → utf8Chars s = s.map ([·])) := by
+  induction s with
+  | nil => exact ⟨rfl, fun _ => rfl⟩
+  | cons b bs ih =>
+    constructor
+    · simp only [utf8Chars]
+      split
+      · rename_i h
+        rw [h] at ih
+        have : bs = [] := by simpa using ih.1.symm
+        simp [this]
+      · rename_i c cs h
+        rw [h] at ih
+        have h1 : c ++ cs.flatten = bs := by simpa using ih.1
+        split <;> simp [h1]
+    · intro hb
+      have hbs : ∀ x ∈ bs, x < 128 := fun x hx => hb x (by simp [hx])
+      have := ih.2 hbs
+      simp only [utf8Chars, this]
+      cases bs with
+      | nil => rfl
+      | cons x xs =>
+        have hx : x < 128 := hbs x (by simp)
+        have : isCont x = false := by simp [isCont]; omega
+        simp [this]
+
+/-- LIKE with a NULL on either side is unknown; on two texts it is the matcher; anything else is a type error -/
+theorem like_null_and_types (v : Value) (s p : List Nat) :
+    like3 .null v = .ok none ∧ like3 v .null = .ok none ∧ like3 (.text s) (.text p) = .ok (some (likeText p s)) := by
+  refine ⟨rfl, ?_, rfl⟩
+  cases v <;> rfl
+
+/-- `a NOT LIKE p` is `NOT (a LIKE p)` (three-valued, errors included) -/
+theorem not_like_is_not_like (tys : List Ty) (row : Row) (a p : Expr) :
+    eval .none tys row (.like true a p) = eval .none tys row (.not (.like false a p)) := by
+  simp only [eval]
+  cases eval {} tys row a with
+  | error e => rfl
+  | ok va =>
+    cases eval {} tys row p with
+    | error e => rfl
+    | ok vp =>
+      simp only []
+      cases like3 va vp with
+      | error e => rfl
+      | ok t =>
+        cases t with
+        | none => rfl
+        | some m => cases m <;> rfl
+
+/-- escapes after wildcards, escaped wildcards, characters of several bytes: 'a_b' LIKE '%\_%', 'ab' NOT LIKE '%\_%',
+    'a%b' LIKE 'a\%' is false, 'a%' LIKE 'a\%', 'é' LIKE '_', 'é' LIKE '__' is false, a pattern ending in `\` matches nothing -/
+theorem like_examples :
+    likeText [37, 92, 95, 37] [97, 95, 98] = true ∧ likeText [37, 92, 95, 37] [97, 98] = false ∧
+    likeText [97, 92, 37] [97, 37, 98] = false ∧ likeText [97, 92, 37] [97, 37] = true ∧
+    likeText [95] [195, 169] = true ∧ likeText [95, 95] [195, 169] = false ∧
+    likeText [97, 92] [97] = false ∧ likeText [37, 97, 37, 98] [98, 97, 97, 98, 98, 97, 98] = true := by decide
+
 /-! ## CASE -/
 
 /-- searched CASE: a WHEN whose condition is TRUE decides — its result is the value, whatever the later arms and the
